@@ -49,7 +49,8 @@
 (* several calls outstanding at once, made before / after the client's     *)
 (* open completed).  The call machine and its clauses are in ProxyCalls;   *)
 (* here the attribute that was called is resolved to (method, form):       *)
-(*   Client(i, names)            a client for interface i was built        *)
+(*   Client(i, names, built)     a client for interface i was built        *)
+(*   Reopen(wait)                DispatcherOpen() called again (marker)    *)
 (*   Call(i, cid, n, in)         attribute n called with arguments `in`    *)
 (*   SinkRecv(seq, rec)          the sink received a method-call message   *)
 (*   Reply(seq, kind, tok)       the sink answered message seq             *)
@@ -58,6 +59,7 @@
 (*   Result(cid, kind, tok)      the blocking form returned / raised; the  *)
 (*                               _async form's result object yielded       *)
 (*   End(opened)                 scenario over, loop quiescent             *)
+(*   C20.built         the builder hands out a client                      *)
 (*   C20.forward / C20.forwardOnce / C20.syncResult / C20.asyncResult: see *)
 (*   ProxyCalls (each call reaches the sink once, unchanged, and gets the  *)
 (*   answer to its own message).                                           *)
@@ -207,9 +209,17 @@ UriCheck(e) ==
 NoUpd == UNCHANGED avars
 
 \* ---------------------------------------------------------------- end to end
-\* e = [i, names]: a client was built for interface i (no clause: exposure is judged by Iface / Fwd)
-ClientCheck(e) == IF ~NoCollision(ToSet(e.names)) THEN "harness.asyncCollision" ELSE "ok"
+\* e = [i, names, built]: a client was built for interface i.  built = 0: the builder (Build(), or
+\* CreateServiceClient + DispatcherOpen) raised, or had not handed out a client although the loop was
+\* quiescent (and the sink's open result completed, unless it was told not to wait for it): there is no
+\* generated client that exposes anything.  Which attributes exist is judged by Iface / Fwd.
+ClientCheck(e) ==
+  IF ~NoCollision(ToSet(e.names)) THEN "harness.asyncCollision"
+  ELSE IF e.built # 1 THEN "C20.built"
+  ELSE "ok"
 ClientUpd(e) == IfaceUpd(e)
+\* DispatcherOpen() was called again on the client (scenario marker; says nothing by itself)
+ReopenCheck(e) == "ok"
 
 \* what was handed over, as one value: method name, positional arguments (tokens), keyword
 \* arguments (sorted by key, << [k |-> name, v |-> token] >>)
